@@ -848,6 +848,8 @@ impl<'a> ParseState<'a, &'a str> {
             self.format.sentence.stamp_fixed => {
                 // 跳过自身
                 self.head_skip(self.format.sentence.stamp_fixed);
+                // 跳过「固定」标识符与数值之间的空白
+                self.head_skip_spaces();
                 // 解析&跳过 整数值
                 let time = self.parse_isize()?;
                 // 生成时间戳
